@@ -106,6 +106,9 @@ class VRecord(V):
         return f"VRecord({self.cls},{self.fields})"
 
 
+RECORDS = {}   # class name -> (ordered {field: type}, module)
+OBJECTS = {}   # class name -> ({field: type}, module)
+
 # ---------------------------------------------------------------- type descriptors
 
 def parse_type(s):
@@ -172,6 +175,9 @@ def box(v):
         return v.t
     if isinstance(v, VConst):
         return Val.VO(z3.IntVal(const_id(v.py)))
+    if isinstance(v, VRecord):
+        fields, _ = RECORDS[v.cls]
+        return Val.VT(mk_vsq([box(v.fields[f]) for f in fields]))
     raise Unsupported(f"cannot box {v!r}")
 
 
@@ -204,6 +210,11 @@ def unbox(t, ty):
         return VList(Val.lval(t), ty[1])
     if isinstance(ty, tuple) and ty[0] == "tuplelist":
         return VList(Val.tval(t), ty[1], kind="tuple")
+    if isinstance(ty, tuple) and ty[0] == "record":
+        fields, _ = RECORDS[ty[1]]
+        return VRecord(ty[1], {f: unbox(VS.at(Val.tval(t), z3.IntVal(k)), fty) for k, (f, fty) in enumerate(fields.items())})
+    if isinstance(ty, tuple) and ty[0] == "opt":
+        return VAny(t)
     raise Unsupported(f"cannot unbox to {ty!r}")
 
 
@@ -271,6 +282,15 @@ def wt(t, ty):
     if isinstance(ty, tuple) and ty[0] == "union":
         alts = [z3.And(*wt(t, a)) if wt(t, a) else z3.BoolVal(True) for a in ty[1:]]
         return [z3.Or(*alts)]
+    if isinstance(ty, tuple) and ty[0] == "opt":
+        w = wt(t, ty[1])
+        return [z3.Or(Val.is_VN(t), z3.And(*w) if w else z3.BoolVal(True))]
+    if isinstance(ty, tuple) and ty[0] == "record":
+        fields, _ = RECORDS[ty[1]]
+        out = [Val.is_VT(t), VS.len(Val.tval(t)) == len(fields)]
+        for k, (f, fty) in enumerate(fields.items()):
+            out += wt(VS.at(Val.tval(t), z3.IntVal(k)), fty)
+        return out
     raise Unsupported(f"wt: {ty!r}")
 
 
